@@ -34,13 +34,13 @@ RUNS = {"quick": 500, "thorough": 15000}
 BUDGET = {"quick": 80, "thorough": 1500}
 CHUNK = {"quick": 4, "thorough": 20}
 RUN_TIMEOUT_S = 600
-KINDS = ["copy", "unwrap", "group", "rmid", "assign_empty", "assign_map", "mc", "compile", "compile_init", "metric", "trs", "evo"]
+KINDS = ["copy", "unwrap", "group", "rmid", "assign_empty", "assign_map", "mc", "compile", "compile_init", "metric", "trs", "evo", "hyb", "alt"]
 RULE = (
     "session = pool of 1-2 seeded circuits (random programs as in C01 on <=5 qubits, or a TimeReversedSolver circuit) "
     "and 1-2 targets (graph / stabilizer / density-matrix QuantumState), then 4-14 calls over {copy, unwrap_nodes, "
     "group_one_qubit_gates, remove_identity, assign_noise(empty), assign_noise(map), MonteCarloNoise.one_run, compile "
-    "(either backend, noise switch, with/without initial state), metric.evaluate, TimeReversedSolver.solve, a 2x2 "
-    "EvolutionarySolver run}, objects chosen among everything created so far. Distinct = distinct event-log digest; "
+    "(either backend, noise switch, with/without initial state), metric.evaluate, TimeReversedSolver.solve, 2x2 "
+    "EvolutionarySolver / HybridEvolutionarySolver runs, AlternateTargetSolver.solve}, objects chosen among everything created so far. Distinct = distinct event-log digest; "
     "non-trivial = some object was used by >=3 calls of >=2 kinds, at least one of them after a noisy copy was derived from it."
 )
 PROBES = ["noisy_copy_then_reuse", "compile_with_initial_state", "rewrite_changed_structure", "solver_on_shared_target",
@@ -75,6 +75,8 @@ def gen_case(run_seed, tier):
     w = {k: 1.0 for k in KINDS}
     w["compile"] = 2.0
     w["evo"] = 0.3
+    w["hyb"] = 0.3
+    w["alt"] = 0.3
     w["trs"] = 0.5
     for k in KINDS:
         if sz.random() < 0.15:
@@ -483,6 +485,33 @@ def run_case(case):
                         s.solve()
                     except (ValueError, UnboundLocalError, AssertionError, TypeError):
                         pass  # metric/representation combinations the solver does not support: not judged here
+                elif k == "hyb":
+                    from graphiq.solvers.evolutionary_solver import EvolutionarySolverSetting
+                    from graphiq.solvers.hybrid_solvers import HybridEvolutionarySolver
+
+                    comp = StabilizerCompiler()
+                    comp.measurement_determinism = 1
+                    ctx.probe("solver_on_shared_target")
+                    tt = T["obj"]
+                    what = f"hyb:{T['rep']}"
+                    s = HybridEvolutionarySolver(target=tt, metric=Infidelity(tt), compiler=comp, solver_setting=EvolutionarySolverSetting(n_hof=2, n_stop=2, n_pop=2))
+                    s.seed(a[2])
+                    s.solve()
+                    if s.hof[0][1] is not None:
+                        circuits.append({"obj": s.hof[0][1], "origin": "hybrid_result", "uses": [], "noisy_derived": False, "noisy": False})
+                elif k == "alt":
+                    from graphiq.solvers.alternate_target_solver import AlternateTargetSolver, AlternateTargetSolverSetting
+
+                    ctx.probe("solver_on_shared_target")
+                    setting = AlternateTargetSolverSetting()
+                    setting.n_iso_graphs = 2
+                    setting.n_lc_graphs = 2
+                    setting.lc_method = [None, "lc_with_iso", "random"][a[3] % 3]
+                    what = f"alt:{T['rep']}"
+                    s = AlternateTargetSolver(target=T["obj"], solver_setting=setting, seed=a[2])
+                    res = s.solve()
+                    if res:
+                        circuits.append({"obj": res[a[4] % len(res)][0], "origin": "alternate_result", "uses": [], "noisy_derived": False, "noisy": False})
                 else:
                     raise core.HarnessError(f"unknown step {st}")
             except core.HarnessError:
